@@ -325,20 +325,13 @@ Proof.
   destruct (list_eq_dec N.eq_dec k x); [subst; contradiction | discriminate].
 Qed.
 
-Lemma keys_distinct_refuted :
-  exists full res target scales,
-    gen_scales full res target 0 = Ok scales /\ keys_guard full res target 0 = false /\
-    ~ NoDup (map so_key scales).
-Proof.
-  exists (100, 100, 100), (fl_1_2, fl_1_5, fl_0_8), 16.
-  destruct (gen_scales (100, 100, 100) (fl_1_2, fl_1_5, fl_0_8) 16 0) as [scales| | | | | |c] eqn:E;
-    try (vm_compute in E; discriminate).
-  exists scales. split; [reflexivity|]. split; [vm_compute; reflexivity|].
-  apply has_dup_not_NoDup.
-  assert (Hs : match gen_scales (100, 100, 100) (fl_1_2, fl_1_5, fl_0_8) 16 0 with
-               | Ok s => has_dup (map so_key s) | _ => false end = true) by (vm_compute; reflexivity).
-  rewrite E in Hs. exact Hs.
-Qed.
+(* the former counterexample 1.2 : 1.5 : 0.8 nm, target 16 (keys were 1nm, 1nm,
+   2nm): since /repo b3f6345 the keys are 1nm, 2nm, 3nm and the guard holds *)
+Example keys_former_witness_distinct :
+  keys_guard (100, 100, 100) (fl_1_2, fl_1_5, fl_0_8) 16 0 = true /\
+  match gen_scales (100, 100, 100) (fl_1_2, fl_1_5, fl_0_8) 16 0 with
+  | Ok s => negb (has_dup (map so_key s)) && (3 <=? length s)%nat | _ => false end = true.
+Proof. vm_compute. split; reflexivity. Qed.
 
 Example keys_guard_example :
   keys_guard (1000, 1000, 10) ((1%positive, 0), (1%positive, 0), (25%positive, 2)) 16 0 = true /\
@@ -354,12 +347,13 @@ Proof.
   rewrite E in Hs. apply Nat.leb_le. exact Hs.
 Qed.
 
-(* the generator fails on valid descriptions *)
-Lemma assert_refuted :
-  gen_scales (1000000, 1000, 1000) ((1%positive, 0), (1%positive, 10), (1%positive, 11)) 2 0
-  = Crash AssertionError.
+(* the former assertion witness (delays 0, 10, 11, target 2) is now accepted *)
+Example former_assert_witness_accepted :
+  match gen_scales (1000000, 1000, 1000) ((1%positive, 0), (1%positive, 10), (1%positive, 11)) 2 0 with
+  | Ok s => (1 <=? length s)%nat | _ => false end = true.
 Proof. vm_compute. reflexivity. Qed.
 
+(* the generator still fails on a valid (sub-half-picometre) description *)
 Lemma tiny_resolution_refuted :
   gen_scales (1000, 1000, 1000) ((1%positive, 0), (1%positive, 0), (1%positive, -14)) 64 0
   = Crash NotImplementedError.
